@@ -854,6 +854,7 @@ func (in *inliner) emitSite0(s *inlSite) (rope, bool) {
 		name, typ string
 		val       rope
 		arg       ast.Expr
+		obj       types.Object
 	}
 	var binds []bind
 	newSubst := map[types.Object]rope{}
@@ -1140,7 +1141,11 @@ func (in *inliner) emitSite0(s *inlSite) (rope, bool) {
 			if rid != nil {
 				name = rid.Name
 			}
-			binds = append(binds, bind{name, typeStr(rt, q), val, sel.X})
+			var ro types.Object
+			if rid != nil {
+				ro = info.Defs[rid]
+			}
+			binds = append(binds, bind{name, typeStr(rt, q), val, sel.X, ro})
 		}
 	}
 	if sig == nil || sig.Params().Len() != len(s.call.Args) {
@@ -1201,7 +1206,11 @@ func (in *inliner) emitSite0(s *inlSite) (rope, bool) {
 				if n != nil {
 					name = n.Name
 				}
-				binds = append(binds, bind{name, typeStr(pt, q), in.exprText(arg), arg})
+				var po types.Object
+				if n != nil {
+					po = info.Defs[n]
+				}
+				binds = append(binds, bind{name, typeStr(pt, q), in.exprText(arg), arg, po})
 			}
 		}
 	}
@@ -1351,9 +1360,15 @@ func (in *inliner) emitSite0(s *inlSite) (rope, bool) {
 			}
 			names[strings.TrimLeft(l, "*&")] = true
 		}
-		for _, b := range binds {
-			if names[b.name] && b.name != "_" {
-				clash = true
+		for i := range binds {
+			if names[binds[i].name] && binds[i].name != "_" {
+				if binds[i].obj == nil {
+					clash = true
+					continue
+				}
+				fresh := fmt.Sprintf("%s_inl%d", binds[i].name, s.id)
+				newSubst[binds[i].obj] = g("%s", fresh)
+				binds[i].name = fresh
 			}
 		}
 		// body-local declarations are renamed instead
@@ -1366,8 +1381,12 @@ func (in *inliner) emitSite0(s *inlSite) (rope, bool) {
 		if ft.Results != nil {
 			for _, f := range ft.Results.List {
 				for _, n := range f.Names {
-					if names[n.Name] {
-						clash = true
+					if names[n.Name] && n.Name != "_" {
+						if o := info.Defs[n]; o != nil {
+							newSubst[o] = g("%s_inl%d", n.Name, s.id)
+						} else {
+							clash = true
+						}
 					}
 				}
 			}
@@ -1532,7 +1551,11 @@ func (in *inliner) emitSite0(s *inlSite) (rope, bool) {
 		for i, f := range ft.Results.List {
 			for _, n := range f.Names {
 				if n.Name != "_" {
-					out = append(out, g("var %s %s\n_ = %s\n", n.Name, typeStr(sig.Results().At(i).Type(), q), n.Name)...)
+					nm := n.Name
+					if r, ok := newSubst[info.Defs[n]]; ok {
+						nm = flatten(r)
+					}
+					out = append(out, g("var %s %s\n_ = %s\n", nm, typeStr(sig.Results().At(i).Type(), q), nm)...)
 				}
 			}
 		}
